@@ -124,7 +124,15 @@ func (m *Model) seq(nodes []*N) (ctrl, Status) {
 	return cNone, StOK
 }
 
-func truthy(v any) bool { return v != nil && v != false }
+func truthy(v any) bool {
+	if v == nil {
+		return false
+	}
+	if b, ok := v.(bool); ok {
+		return b
+	}
+	return true
+}
 
 func (m *Model) node(n *N) (ctrl, Status) {
 	m.Steps++
@@ -1003,6 +1011,10 @@ func (m *Model) Filter(name string, x any, args []any) (any, Status) {
 			r = a - b
 		default:
 			r = a * b
+			if r == 0 && (a < 0 || b < 0) {
+				// float arithmetic gives -0 here, which prints as "-0": numerically equal, textually not stated
+				return un("zero product with a negative factor")
+			}
 		}
 		// arithmetic yields a number; whether it is usable where an integer is
 		// required (index, limit) is not stated, so it is carried as a float
